@@ -3,6 +3,7 @@
    against what the code says now. *)
 From Az65 Require Import Base Token Utf8 Lexer LexerFacts NamesFacts.
 From Az65.Gen Require Import Tables.
+From Az65 Require Import Expr ExprParse Linker Asm ColonFacts.
 
 (* (1) Every entry of every name table (directives; Z80, SM83, 6502 mnemonics, registers, flags) has
        exactly two spellings, the all-lower-case and the all-upper-case form of the same name, and both
@@ -57,3 +58,14 @@ Theorem C18_number_value :
     (v = positional base acc l /\ (v < 4294967296)%N) \/ (l = [] /\ v = acc).
 Proof. exact number_value. Qed.
 Print Assumptions C18_number_value.
+
+(* the colon after a label is optional: `name:` and `name` (when what follows is not itself a colon) leave the assembler in
+   the same state -- for every kind of label (global, local, qualified), every state and whatever follows *)
+Theorem C18_label_colon_optional :
+  forall arch_parse incbin_file fuel (s : astate) k v rest,
+    a_toks s = TLabel k v :: TSym SyColon :: rest ->
+    is_sym SyColon (hd_error rest) = false ->
+    statement arch_parse incbin_file fuel s =
+    statement arch_parse incbin_file fuel (w_toks s (TLabel k v :: rest)).
+Proof. exact label_colon_optional. Qed.
+Print Assumptions C18_label_colon_optional.
